@@ -3,7 +3,7 @@
      S n  n sends (all accepted: the queue is far from full) followed by a wait until drained
      I    idle period longer than the idle timeout: the worker ends gracefully
      F    the connection fails at the next write (armed), then one send + wait
-   obs after every op: delivered=<count> lost=<count> unreachable=<0|1+> orphaned=<0|1>        *)
+   obs after every op: ok=<0|1> (everything asked for got through) unreachable=<0|1> orphaned=<0|1>        *)
 open Model
 open Util
 
@@ -29,8 +29,8 @@ let () =
            incr next; s := sq_step unreg !s (SSend (n_of_int !next));
            s := sq_step unreg !s SFail
          | _ -> failwith "bad op");
-        Printf.printf "%s %d:%s delivered=%d lost=%d unreachable=%d orphaned=%d\n" id i (List.hd (split_ws o))
-          (List.length !s.sq_delivered) (List.length !s.sq_lost)
+        Printf.printf "%s %d:%s ok=%d unreachable=%d orphaned=%d\n" id i (List.hd (split_ws o))
+          (if !s.sq_queue = [] then 1 else 0)
           (if int_of_n !s.sq_unreachable > 0 then 1 else 0)
           (if orphaned !s then 1 else 0)) (Str.split (Str.regexp_string " ; ") body)
     | _ -> ())
